@@ -21,6 +21,66 @@ func factsAll() {
 	factsKeeper()
 	factsConfig()
 	factsMiner()
+	factsFractal()
+}
+
+// factsFractal: structure of the cluster task router (C17).
+func factsFractal() {
+	const d = "fractal"
+	// capacity of a task's report channel: `make(chan *CollectorMsg, N)` in AddTask
+	fd := findFunc(d, "LocalSuperior", "AddTask")
+	capN := int64(-1)
+	if fd != nil {
+		p := loadPkg(d)
+		ast.Inspect(fd, func(n ast.Node) bool {
+			if c, ok := n.(*ast.CallExpr); ok {
+				if id, ok := c.Fun.(*ast.Ident); ok && id.Name == "make" && len(c.Args) == 2 {
+					if v, ok := p.evalInt(c.Args[1], 0); ok {
+						capN = v
+					}
+				}
+			}
+			return true
+		})
+	}
+	emit("/-- capacity of a task's report channel (`make(chan *CollectorMsg, N)` in `LocalSuperior.AddTask`) -/\ndef fractalTaskChanCap : Nat := %d", capN)
+	// submitCollectorMsg: the cache lock is released before the hand-over, and a send on a channel closed by
+	// RemoveTask is recovered
+	sub := findFunc(d, "LocalSuperior", "submitCollectorMsg")
+	src := ""
+	if sub != nil {
+		src = srcOf(d, sub)
+	}
+	iu, is := strings.Index(src, "taskCacheLock.Unlock()"), strings.Index(src, "ch <- resp")
+	emit("/-- `submitCollectorMsg` unlocks the task cache before `ch <- resp` (no `defer` of the unlock) -/\ndef fractalSubmitSendsOutsideLock : Bool := %v",
+		iu >= 0 && is >= 0 && iu < is && !strings.Contains(src, "defer ls.taskCacheLock.Unlock()"))
+	emit("/-- `submitCollectorMsg` recovers from the send on a channel closed by `RemoveTask` -/\ndef fractalSubmitRecovers : Bool := %v", strings.Contains(src, "recover()"))
+	// RemoveTask closes the channel and drops the cache entry under the cache lock
+	rm := findFunc(d, "LocalSuperior", "RemoveTask")
+	rsrc := ""
+	if rm != nil {
+		rsrc = srcOf(d, rm)
+	}
+	emit("/-- `RemoveTask` closes the channel and removes the cache entry while holding the cache lock -/\ndef fractalRemoveUnderLock : Bool := %v",
+		strings.Contains(rsrc, "defer ls.taskCacheLock.Unlock()") && strings.Contains(rsrc, "close(ch)") && strings.Contains(rsrc, "taskCache.Remove(id)"))
+	// Subscribe and the broadcast branch of AddTask are serialised by latestLock (local and remote superior)
+	okLatest := true
+	for _, recv := range []string{"LocalSuperior", "RemoteSuperior"} {
+		f := findFunc(d, recv, "Subscribe")
+		if f == nil || !strings.Contains(srcOf(d, f), "latestLock.Lock()") {
+			okLatest = false
+		}
+	}
+	if fd == nil || !strings.Contains(srcOf(d, fd), "latestLock.Lock()") {
+		okLatest = false
+	}
+	if rp := findFunc(d, "RemoteSuperior", "requestProcessor"); rp == nil || !strings.Contains(srcOf(d, rp), "latestLock.Lock()") {
+		okLatest = false
+	}
+	emit("/-- registering a collector + reading the latest task, and recording a broadcast task + broadcasting it, run under `latestLock` (local and remote superior) -/\ndef fractalLatestSerialised : Bool := %v", okLatest)
+	// stopping a pool closes its listener
+	ws := findFunc(d, "CollectorPool", "waitStop")
+	emit("/-- `CollectorPool.waitStop` closes the listener -/\ndef fractalPoolStopClosesListener : Bool := %v", ws != nil && strings.Contains(srcOf(d, ws), "listener.Close()"))
 }
 
 // factsMiner: constants of the v1 miner's proof search (C08).
